@@ -433,6 +433,44 @@ def MaybeV.toStr (h : Heap) (m : MaybeV) : Option String :=
       | .str hx => Option.some hx
       | r => fmtV h 0 r
 
+/-! ### every observer, as one function (what `handle` executes and what `C01_total` quantifies over) -/
+
+/-- `Just(in)` as a method: ignores its receiver (promoted unchanged to `None`) -/
+def MaybeV.justM (_m : MaybeV) (x : GoVal) : R MaybeV := just x
+
+/-- the methods of `MaybeDef[T]`, the additional exported `To*` methods of the concrete types (`conv`), and the
+    package function `CloneTo`; `α` is the result type of a `FlatMap` callback -/
+inductive Observer (α : Type)
+  | isNil | isPresent | isValid | isPtr | kind | type | isType (t : Option Ty) | isKind (k : Kind)
+  | or (d : GoVal) | letRun | unwrap | unwrapInterface | toString | toPtr | toMaybe | clone | cloneTo (dest : GoVal)
+  | just (x : GoVal) | flatMap (f : GoVal → R α) | conv (name : String)
+
+inductive Out (α : Type)
+  | bool (b : Bool) | kind (k : Kind) | type (t : Option Ty) | val (v : GoVal) | count (n : Nat)
+  | str (s : Option String) | ptr (p : GoVal) | maybe (m : MaybeV) | conv (r : ConvRes) | res (a : α)
+
+def observe {α} (h : Heap) (m : MaybeV) : Observer α → R (Heap × Out α)
+  | .isNil => pure (h, .bool m.isNil)
+  | .isPresent => pure (h, .bool m.isPresent)
+  | .isValid => pure (h, .bool m.isValid)
+  | .isPtr => pure (h, .bool m.isPtr)
+  | .kind => pure (h, .kind m.kind)
+  | .type => pure (h, .type m.type)
+  | .isType t => pure (h, .bool (m.isType t))
+  | .isKind k => pure (h, .bool (m.isKind k))
+  | .or d => pure (h, .val (m.or d))
+  | .letRun => pure (h, .count (m.letRun (· + 1) 0))
+  | .unwrap => pure (h, .val m.unwrap)
+  | .unwrapInterface => pure (h, .val m.unwrapInterface)
+  | .toString => pure (h, .str (m.toStr h))
+  | .toPtr => do let (h', p) ← m.toPtr h; pure (h', .ptr p)
+  | .toMaybe => pure (h, .maybe m.toMaybe)
+  | .clone => do let (h', r) ← m.clone h; pure (h', .maybe r)
+  | .cloneTo dest => do let (h', r) ← cloneTo h m.param m dest; pure (h', .maybe r)
+  | .just x => do let r ← m.justM x; pure (h, .maybe r)
+  | .flatMap f => do let r ← m.flatMap f; pure (h, .res r)
+  | .conv name => pure (h, .conv (m.conv name))
+
 /-! ### Spec — what property C01 demands, stated on the value `v` alone (no reference to the mechanism) -/
 
 namespace Spec
